@@ -720,6 +720,16 @@ func (w *Writer) OpenStream(ref Reference, dict Dict, filters ...Filter) (io.Wri
 	}
 	w.w.ref = ref
 
+	// A call which is rejected below must not leave a cross-reference entry
+	// for a stream that is never written: the entry would point at whatever
+	// object is written next.
+	accepted := false
+	defer func() {
+		if !accepted {
+			delete(w.xref, ref.Number())
+		}
+	}()
+
 	// Copy dict so that we don't modify the caller's dict, and inline any
 	// indirect /Filter or /DecodeParms entries.  Inlining serves two
 	// purposes: it gives appendFilter direct Name/Array values to extend
@@ -798,6 +808,7 @@ func (w *Writer) OpenStream(ref Reference, dict Dict, filters ...Filter) (io.Wri
 		appendFilter(streamDict, name, parms)
 	}
 
+	accepted = true
 	w.inStream = true
 	return streamBody, nil
 }
